@@ -148,3 +148,32 @@ Definition capture (sup : bool) (min_pwm : Z) (rp rm : rverdict) (d : dev) : dev
 Definition all_w : list wverdict := [WOk; WRefused; WIgnored].
 Definition all_r : list rverdict := [ROk; RFails; RGarbage; RPerm].
 Definition all_b : list backend := [BHwmon; BFile; BCmd].
+
+(* ---- the boolean observers are the Props (used by the drivers' verified observers;
+        kept here so that they do not depend on the proofs about the constants) ---- *)
+Lemma safeb_spec sup orig d : safeb sup orig d = true <-> safe sup orig d.
+Proof.
+  unfold safeb, safe. rewrite orb_true_iff, !andb_true_iff, negb_true_iff, Z.eqb_neq, !Z.eqb_eq.
+  tauto.
+Qed.
+
+Lemma last_resort_write_failedb_spec p r :
+  last_resort_write_failedb p r = true <-> last_resort_write_failed p r.
+Proof.
+  unfold last_resort_write_failedb, last_resort_write_failed. rewrite andb_true_iff.
+  destruct (p_v2 p); split; intros [H1 H2]; split; auto; try discriminate; congruence.
+Qed.
+
+Lemma undetectableb_spec p : undetectableb p = true <-> undetectable p.
+Proof.
+  unfold undetectableb, undetectable.
+  destruct (p_mv p), (p_rb p); split; try discriminate; try tauto;
+    intros [H1 H2]; discriminate.
+Qed.
+
+
+Definition d2_only : Defects := mkDefects true false false false false.
+Definition d3_only : Defects := mkDefects false true false false false.
+Definition d4_only : Defects := mkDefects false false true false false.
+Definition d5_only : Defects := mkDefects false false false true false.
+Definition d13_only : Defects := mkDefects false false false false true.
